@@ -428,6 +428,12 @@ func WorkerMain(args []string) int {
 		r.jinput = args[8] + ".input"
 	}
 	limit := ck.CaseTimeout
+	if s := os.Getenv("VERIF_CASE_TIMEOUT"); s != "" {
+		// development aid (mutation sweep): a shorter per-case watchdog; never set by the registered commands
+		if v, err := strconv.Atoi(s); err == nil && v > 0 {
+			limit = v
+		}
+	}
 	if limit == 0 {
 		limit = 300
 	}
@@ -699,6 +705,15 @@ func RunMain(id, tier string, replayIdx int) int {
 				agg.Crashes++
 				if kind == "watchdog" && !ck.TimeoutIsViolation {
 					agg.Inconc["case-timeout"]++
+					if os.Getenv("VERIF_FAILFAST") != "" {
+						agg.Problems = append(agg.Problems, "case-timeout (fail-fast: run stopped at the first case timeout)")
+						ffStop.Store(true)
+						procMu.Lock()
+						for _, p := range procs {
+							p.Kill()
+						}
+						procMu.Unlock()
+					}
 				} else {
 					w := map[string]interface{}{"death": kind, "stderr_tail": lastLines(stderrTxt, 60)}
 					if len(input) > 0 {
